@@ -15,7 +15,7 @@ from .instr import isa, code, arg
 from .isa_templates import regs_set
 
 ID = 'C19'
-BUDGET_S = {'quick': 170, 'thorough': 1200}
+BUDGET_S = {'quick': 170, 'thorough': 3600}
 SHAPE_WALL_S = {'quick': 100, 'thorough': 400}
 FAMILY = ('(a) whole model load + assembly of `nop` with `min_version` = a.b.c[b1], every component symbolic; '
           '(b) UNIT RequiredLanguageLine for each of == >= <= > < with the required and the declared ISA version symbolic, '
@@ -235,42 +235,40 @@ class CorruptionShape(PipeShape):
         return [('C19.' + self.sid.split(':')[1].replace('-', '_') + '_is_rejected', z3.BoolVal(out.kind != 'ok'))]
 
 
-def shapes(tier, seed):
-    S = [MinVersionShape('min-version'), MinVersionShape('min-version-wide', hi=1000)]
-    for op in ('==', '>=', '<=', '>', '<'):
-        S.append(RequireShape(f'require:{op}', op=op))
-    S.append(RequireShape('require:other-language', op='>=', lang='other'))
+def numeric_family(base, tag=''):
+    """symbolic numeric well-formedness of a definition built by `base()`"""
+    S = []
     # (c) numeric well-formedness -----------------------------------------------------------------------------------
-    c = good_isa()
+    c = base()
     c['operand_sets']['bit']['operand_values']['b']['bytecode'].update(min=Sym('bmin', -4, 12), max=Sym('bmax', -4, 12))
-    S.append(ConfigShape('numeric-bytecode-range', config=c, accept='bmax >= bmin'))
+    S.append(ConfigShape(tag + 'numeric-bytecode-range', config=c, accept='bmax >= bmin'))
     for bits in (8, 16):
         top = (1 << bits) - 1
-        c = good_isa()
+        c = base()
         c['general']['address_size'] = bits
         c['predefined']['memory_zones'] = [{'name': 'ROM', 'start': Sym('zs', 0, top + 4), 'end': Sym('ze', 0, top + 4)}]
-        S.append(ConfigShape(f'zone-bounds-{bits}bit', config=c, accept=f'And(zs <= ze, ze <= {top})'))
-        c = good_isa()
+        S.append(ConfigShape(tag + f'zone-bounds-{bits}bit', config=c, accept=f'And(zs <= ze, ze <= {top})'))
+        c = base()
         c['general']['address_size'] = bits
         c['general']['origin'] = Sym('org', 0, top + 4)
         c['predefined']['memory_zones'] = [{'name': 'GLOBAL', 'start': Sym('gs', 0, top), 'end': Sym('ge', 0, top + 4)}]
         # assembling `nop` at the origin needs one byte inside GLOBAL
-        S.append(ConfigShape(f'global-vs-origin-{bits}bit', config=c,
+        S.append(ConfigShape(tag + f'global-vs-origin-{bits}bit', config=c,
                              accept=f'And(gs <= ge, ge <= {top}, gs <= org, org <= ge)'))
     # a predefined zone against a redefined GLOBAL, wherever GLOBAL stands in the list of zones
     for pos, nm in ((0, 'global-first'), (1, 'global-last'), (1, 'global-between')):
-        c = good_isa()
+        c = base()
         c['general']['origin'] = 0x20
         mz = [{'name': 'ROM', 'start': Sym('zs', 0, 0x90), 'end': Sym('ze', 0, 0x90)}]
         if nm == 'global-between':
             mz.append({'name': 'RAM', 'start': 0x30, 'end': 0x3f})
         mz.insert(pos, {'name': 'GLOBAL', 'start': Sym('gs', 0, 0x20), 'end': Sym('ge', 0x40, 0x90)})
         c['predefined']['memory_zones'] = mz
-        S.append(ConfigShape(f'zone-vs-redefined-global:{nm}', config=c, accept='And(zs <= ze, gs <= zs, ze <= ge)'))
+        S.append(ConfigShape(tag + f'zone-vs-redefined-global:{nm}', config=c, accept='And(zs <= ze, gs <= zs, ze <= ge)'))
     # operand count against the operand list: the count is symbolic, the list length enumerated (incl. the empty list)
     for where in ('instruction', 'macro', 'variant'):
         for k, lst in enumerate(([], ['regs'], ['regs', 'imm'], ['regs', 'imm', 'bit'])):
-            c = good_isa()
+            c = base()
             ops = {'count': Sym('cnt', 0, 4), 'operand_sets': {'list': list(lst)}}
             if where == 'instruction':
                 c['instructions']['mov']['operands'] = ops
@@ -279,16 +277,25 @@ def shapes(tier, seed):
                 c['macros']['mov2'][0]['instructions'] = ['nop', 'nop']
             else:
                 c['instructions']['bset']['variants'] = [{'bytecode': {'value': 9, 'size': 5}, 'operands': ops}]
-            S.append(ConfigShape(f'operand-count-vs-list:{where}:{k}', config=c, accept=f'cnt == {k}'))
+            S.append(ConfigShape(tag + f'operand-count-vs-list:{where}:{k}', config=c, accept=f'cnt == {k}'))
     for k in (1, 2):
-        c = good_isa()
+        c = base()
         lst = {'r': {'type': 'register', 'register': 'rb', 'bytecode': {'value': 1, 'size': 3}},
                'n': {'type': 'numeric', 'argument': arg(8, True)}}
         if k == 1:
             del lst['n']
         c['instructions']['bset']['variants'] = [{'bytecode': {'value': 9, 'size': 5}, 'operands': {
             'count': Sym('cnt', 0, 4), 'specific_operands': {'one': {'list': lst}}}}]
-        S.append(ConfigShape(f'operand-count-vs-specific-list:{k}', config=c, accept=f'cnt == {k}'))
+        S.append(ConfigShape(tag + f'operand-count-vs-specific-list:{k}', config=c, accept=f'cnt == {k}'))
+    return S
+
+
+def shapes(tier, seed):
+    S = [MinVersionShape('min-version'), MinVersionShape('min-version-wide', hi=1000)]
+    for op in ('==', '>=', '<=', '>', '<'):
+        S.append(RequireShape(f'require:{op}', op=op))
+    S.append(RequireShape('require:other-language', op='>=', lang='other'))
+    S += numeric_family(good_isa)
     # (d) corruption catalogue -------------------------------------------------------------------------------------
     S.append(CorruptionShape('wellformed:baseline', config=good_isa(), files={'main.asm': 'mov ra, 5\nbset 3\nmov2 rb, 1\n'},
                              expect=['ok']))
@@ -331,4 +338,5 @@ def shapes(tier, seed):
                 except KeyError:
                     continue
                 S.append(CorruptionShape(f'corrupt{b}:{name}', config=c, files={'main.asm': 'nop\n'}))
+            S += numeric_family(base, f'v{b}:')
     return S
